@@ -27,6 +27,31 @@ func c04Cache(rec *metadata.C04Recorder, r metadata.Reader) {
 		}
 		return vr.Cache()
 	})
+	// the FUSE read path: fs/reader's file.ReadAt sizes buffers from the chunk table of the metadata store
+	rec.Run("reader.ReadAt", func() error {
+		vr, err := fsreader.NewReader(r, cache.NewMemoryCache(), digest.FromString(""))
+		if err != nil {
+			return err
+		}
+		rd := vr.SkipVerify()
+		var first error
+		for _, id := range metadata.C04RegIDs(r) {
+			f, err := rd.OpenFile(id)
+			if err != nil {
+				if first == nil {
+					first = err
+				}
+				continue
+			}
+			buf := make([]byte, 16)
+			for _, off := range []int64{0, 1, 3} {
+				if _, err := f.ReadAt(buf, off); err != nil && first == nil {
+					first = err
+				}
+			}
+		}
+		return first
+	})
 }
 
 func TestVerifC04Child(t *testing.T) {
